@@ -1070,10 +1070,21 @@ def machine(ctx):
 
 
 def replay_history(sub_name, case, ctx):
+    """Plain re-execution of a history.  harness.replay_case does not classify exceptions of a history replay, so an
+    exception that passes through a /repo frame is turned into the same clause machine_guard / Ctx.run_case would use."""
+    from vlib import harness as H
+    from vlib.env import HarnessError
     ctx.begin_case(case)
     state = new_state()
     for op in case["history"]:
-        apply_op(state, op, ctx)
+        try:
+            apply_op(state, op, ctx)
+        except (H.Violation, HarnessError):
+            raise
+        except Exception as e:  # noqa
+            if not H._passes_through_repo(e):
+                raise
+            ctx.fail("sut_exception:%s" % type(e).__name__, message=str(e)[:300], where=H._repo_frame(e))
     ctx.nontrivial(state["nontrivial"])
     ctx.end_case(case)
 
